@@ -347,6 +347,51 @@ def _char_bytes(cp):
     return tuple(chr(cp).encode('utf-8'))
 
 
+def _decode_chars(ex, s):
+    """UTF-8 decoding of a (valid, possibly symbolic) str: list of (byte offset, code point); the width of each
+    character is decided by the solver from its lead byte"""
+    out = []
+    i, n = 0, len(s)
+    while i < n:
+        b = s[i]
+        if type(b) is int:
+            w = 1 if b < 0x80 else 2 if b < 0xE0 else 3 if b < 0xF0 else 4
+        elif ex.branch(z3.ULT(b, 0x80)):
+            w = 1
+        elif ex.branch(z3.ULT(b, 0xE0)):
+            w = 2
+        elif ex.branch(z3.ULT(b, 0xF0)):
+            w = 3
+        else:
+            w = 4
+        if i + w > n:
+            raise Unmodelled('truncated UTF-8 sequence in a str (the harness must assume valid UTF-8)')
+        bs = s[i:i + w]
+        if all(type(x) is int for x in bs):
+            cp = ord(bytes(bs).decode('utf-8', 'replace')[0])
+        else:
+            z = [z3.ZeroExt(24, bv(x, 8)) for x in bs]
+            if w == 1:
+                cp = z[0]
+            elif w == 2:
+                cp = ((z[0] & 0x1F) << 6) | (z[1] & 0x3F)
+            elif w == 3:
+                cp = ((z[0] & 0x0F) << 12) | ((z[1] & 0x3F) << 6) | (z[2] & 0x3F)
+            else:
+                cp = ((z[0] & 0x07) << 18) | ((z[1] & 0x3F) << 12) | ((z[2] & 0x3F) << 6) | (z[3] & 0x3F)
+        out.append((i, cp))
+        i += w
+    return out
+
+
+@model(r'core::str::<impl str>::(chars|char_indices)')
+def m_str_chars(ex, c, a, m):
+    items = _decode_chars(ex, as_S(a[0]))
+    if m.group(1) == 'chars':
+        return PyIter([cp for _, cp in items])
+    return PyIter([Tup(i, cp) for i, cp in items])
+
+
 def _is_char_boundary(ex, s, i):
     """Rust panics when slicing inside a multi-byte character"""
     if i == 0 or i == len(s):
@@ -976,6 +1021,17 @@ def m_iter_misc(ex, c, a, m):
             if ex.branch(ex.call_closure(a[1], [ValRef(x)])):
                 return Some(x)
         return NONE()
+    if op == 'position':
+        for i, x in enumerate(drain(ex, a[0])):
+            if ex.branch(ex.call_closure(a[1], [x])):
+                return Some(i)
+        return NONE()
+    if op == 'nth':
+        xs = drain(ex, a[0])
+        k = ex.concretize(a[1], len(xs))
+        return Some(xs[k]) if k is not None and k < len(xs) else NONE()
+    if op == 'zip':
+        return PyIter([Tup(x, y) for x, y in zip(drain(ex, a[0]), drain(ex, a[1]))])
     raise Unmodelled('call ' + c)
 
 
